@@ -64,11 +64,11 @@ Qed.
 (* ----------------------------------------------------------------------------- non-vacuity *)
 (** the 8-file sagittal series of Conv/FullEx.v: [fx_h1] = the adds in scrambled order, [fx_h2] = the adds in reverse
     order interleaved with a shape query and three conversions, followed by more queries: the two stacks differ (file
-    order, recorded affine edits), the histories accept the same files, and the conversion succeeds *)
+    order, dirty flag / cached shape), the histories accept the same files, and the conversion succeeds *)
 Example C12_full_history_ex :
   Permutation (accepted (init true true) fx_h1) (accepted (init true true) fx_h2) /\
   ids (files_info (run (init true true) fx_h1)) <> ids (files_info (run (init true true) fx_h2)) /\
-  aff_edits (run (init true true) fx_h1) = [] /\ aff_edits (run (init true true) fx_h2) <> [] /\
+  shape_dirty (run (init true true) fx_h1) = true /\ shape_dirty (run (init true true) fx_h2) = false /\
   snd (conv_full jv_eqb JNull fx_gs fx_ms (run (init true true) fx_h1) ex_LAS true fx_filt) = Ok (fx_go, fx_h, Some fx_e) /\
   snd (conv_full jv_eqb JNull fx_gs fx_ms (run (init true true) fx_h2) ex_LAS true fx_filt) = Ok (fx_go, fx_h, Some fx_e).
 Proof.
